@@ -25,6 +25,14 @@ LIBRARY = [
     {'id': 8, 'name': 'KBr', 'kind': 'Solid', 'mw': '119', 'dens': '2.75', 'act': '1'},      # non-default solid density
     {'id': 9, 'name': 'trypsin', 'kind': 'Enzyme', 'mw': '1', 'dens': '40', 'act': '1300'},  # non-default U/mL
 ]
+# substances that share their NAME with another entry but are different substances for the library (Substance.__eq__ compares name,
+# kind, molecular weight, density): a hydrate, another grade, the same protein weighed as a solid.  Nothing may key on the name alone.
+NAME_TWINS = [
+    {'id': 11, 'name': 'NaCl', 'kind': 'Solid', 'mw': '76.46', 'dens': '1', 'act': '1'},            # "NaCl" again: another molar mass
+    {'id': 12, 'name': 'ethanol', 'kind': 'Liquid', 'mw': '46.07', 'dens': '0.81', 'act': '1'},     # "ethanol" again: another density
+    {'id': 13, 'name': 'lipase', 'kind': 'Solid', 'mw': '33000', 'dens': '1', 'act': '1'},         # "lipase" weighed as a solid
+]
+TWIN_OF = {11: 4, 12: 3, 13: 6}
 # a second lot of an enzyme: same name, different specific activity (Substance.__eq__ ignores the activity); used by directed cases only
 TWIN_LOT = {'id': 10, 'name': 'lipase', 'kind': 'Enzyme', 'mw': '1', 'dens': '1', 'act': '25000'}
 
@@ -191,6 +199,17 @@ def observe_all(im):
             d['error'] = [type(e).__name__]
         out[str(v)] = d
     return out
+
+
+def key_of(s):
+    """what distinguishes two substances for this harness (the name alone does not: NAME_TWINS)"""
+    return (s.name, s.specific_activity, s.mol_weight, s.density)
+
+
+def sid_of(holder, s):
+    """the library id of a Substance object, through the full key first"""
+    bk = getattr(holder, 'bykey', None) or {}
+    return bk.get(key_of(s), holder.byname.get(s.name, -1))
 
 
 class Impl:
